@@ -931,6 +931,7 @@ main(int argc, char **argv)
       }
     }
     else if (!strcmp(a, "--nprio")) base_cfg.nprio = atoi(ARG());
+    else if (!strcmp(a, "--demote")) base_cfg.demote = atoi(ARG());
     else if (!strcmp(a, "--bound")) bound = atoi(ARG());
     else if (!strcmp(a, "--jobs")) jobs = atoi(ARG());
     else if (!strcmp(a, "--deadline")) deadline = atof(ARG());
